@@ -60,6 +60,15 @@ def install(w):
                # the field loop of the input-object branch: a field without an entry makes the
                # literal invalid exactly when the field is required (non-null and no default of
                # either kind); otherwise its default, if any, is used
+               # the recursion descends with the right operands: the wrapped type for non-null
+               # and list types (a non-list literal for a list type is coerced against the ITEM type,
+               # so nested lists wrap recursively), the field's own type for input object fields
+               call_pre={
+                   "coerce_input_literal#1": ["arg_type_ is of(type_)", "arg_value_node is value_node"],
+                   "coerce_input_literal#2": ["arg_type_ is of(type_)", "arg_value_node is value_node"],
+                   "coerce_input_literal#3": ["arg_type_ is of(type_)", "arg_value_node is item_node"],
+                   "coerce_input_literal#4": ["arg_type_ is field.type",
+                                              "arg_value_node is field_node.value"]},
                loops={2: {"return_post": [
                               "implies(field_node is None and is_undefined(result), RequiredField(field))"],
                           "step_post": [
@@ -105,6 +114,12 @@ def install_validate_literal(w):
                ],
                raises=["Exception"], ghost_modifies=["errs"], modifies=[], valid_schema=True,
                locals={"known_fields": ("list", "ref:ObjectFieldNode")},
+               call_pre={
+                   "validate_input_literal_impl#1": ["arg_type_ is of(type_)", "arg_value_node is value_node"],
+                   "validate_input_literal_impl#2": ["arg_type_ is of(type_)", "arg_value_node is value_node"],
+                   "validate_input_literal_impl#3": ["arg_type_ is of(type_)", "arg_value_node is item_node"],
+                   "validate_input_literal_impl#4": ["arg_type_ is field.type",
+                                                     "arg_value_node is field_value_node"]},
                loop_all=["ghost('errs') >= old(ghost('errs'))"],
                loops={2: {"iter_post": [
                    # a field without an entry is reported exactly when it is required
@@ -116,7 +131,7 @@ def install_validate_literal(w):
                    "ghost('errs') >= old(ghost('errs'))",
                    # every entry seen so far is known, or an unknown field has been reported
                    "ghost('errs') > old(ghost('errs')) or len(known_fields) == _i"]}},
-               props={"C15"})
+               props={"C15", "C20"})
 
 
 _lit_prev = install
